@@ -20,15 +20,18 @@ def str_keys_only(d):
     return True
 
 
-def domain_ok(ctx, node, d, sc, x):
+def domain_ok(ctx, node, d, sc, x, leg="direct"):
     """Exactly one reading of the dumped datum in this coercion mode (union cases do not overlap for it)."""
     v = node.accept(d, sc)
     if v.k == spec.U:
         ctx.count("skipped_unspecified")
         return False
     if v.k == spec.R:
-        ctx.count("skipped_reference_rejects")
-        return False
+        if leg == "json":
+            ctx.count("skipped_json_changes_meaning")   # e.g. an enum whose value is a tuple: JSON turns it into a list
+            return False
+        ctx.count("reference_rejects_direct_dump")
+        return True   # the law is still checked: a dump nobody can read back is a violation whatever the reference thinks
     if v.vals is None or any(not strict_eq(x, y) and not strict_eq(y, x) for y in v.vals):
         ctx.count("skipped_overlap")
         return False
@@ -70,7 +73,7 @@ def round_trip(ctx, node, prog, x, tag=""):
             except (TypeError, ValueError):
                 ctx.count("json_leg_not_serialisable")
         for leg, dd in legs:
-            if not domain_ok(ctx, node, dd, sc, x):
+            if not domain_ok(ctx, node, dd, sc, x, leg):
                 continue
             out = attempt(prog.loaders[dt, sc], dd)
             nontrivial = node.depth() > 1 and d is not x
@@ -86,7 +89,7 @@ def round_trip(ctx, node, prog, x, tag=""):
 
 
 def run_case(ctx, rng, idx):
-    node = gen_node(rng, ctx.tier)
+    node = gen_node(rng, ctx.tier, with_models=True)
     prog = Program(node)
     if prog.creation_errors:
         ctx.count("creation_errors")
